@@ -130,6 +130,19 @@ def gen_cases(tier, rng):
     for content in ('-v -x', '-x', '-n 7 -x\n-v', '-x a b\n'):
         cases.append('H:f=16 prog:%s %sfile:%s argv:- kind:command-mode' % (A.hx('pcm'), cbase, A.hx(content)))
         cases.append('H:f=32 prog:%s %senv:%s argv:2d76 kind:command-mode' % (A.hx('pcm'), cbase, A.hx(content.replace('\n', ' '))))
+    # argument files that name argument files: a file that names itself, a cycle of two, chains at the nesting limit
+    af = 'H:f=0 arg:i:i0: arg:arg-file:af0: '
+    cases.append(af + 'xfile:66312e7061:%s argv:2d2d6172672d66696c65,66312e7061 kind:arg-file-nesting' % A.hx('--arg-file f1.pa\n'))
+    cases.append(af + 'xfile:66312e7061:%s xfile:66322e7061:%s argv:2d2d6172672d66696c65,66312e7061 kind:arg-file-nesting'
+                 % (A.hx('-i 1\n--arg-file f2.pa\n'), A.hx('--arg-file=f1.pa')))
+    for depth in (2, 9, 10, 11, 12):
+        toks = []
+        for k in range(1, depth + 1):
+            content = ('--arg-file f%d.pa\n' % (k + 1)) if k < depth else '-i 5\n'
+            toks.append('xfile:%s:%s' % (A.hx('f%d.pa' % k), A.hx(content)))
+        cases.append(af + ' '.join(toks) + ' argv:2d2d6172672d66696c65,66312e7061 kind:arg-file-nesting')
+        cases.append('H:f=16 prog:%s arg:i:i0: arg:arg-file:af0: file:%s %s argv:- kind:arg-file-nesting'
+                     % (A.hx('pnest'), A.hx('--arg-file f1.pa\n'), ' '.join(toks)))
     # a directory where an argument file is expected: nothing to read, the evaluation must come back
     cases.append('H:f=0 arg:v:b0:init=0 arg:arg-file:af0: xdir:%s argv:2d2d6172672d66696c65,6431 kind:directory-as-file' % A.hx('d1'))
     cases.append('H:f=0 arg:v:b0:init=0 arg:arg-file:af0: xdir:%s argv:2d2d6172672d66696c653d6431,2d76 kind:directory-as-file' % A.hx('d1'))
@@ -204,7 +217,9 @@ CLAIM = {
     'text': 'PARTIAL. Coq theorems (Properties_C04.v): for ANY words the argument list iterator never reads outside a '
             'word and the remaining input strictly shrinks (position invariant + measure), so the evaluation of any '
             'argument vector / file lines / environment words under any configuration ends with a normal return or an '
-            'exception (the model never reaches Fault, the fuel of the loop is never exhausted); the hand-sized '
+            'exception (the model never reaches Fault, the fuel of the loop is never exhausted) - also with an argument '
+            'that names an argument file, for any set of files incl. files that name themselves (C04_named_files_total; '
+            'the pinned code recursed until the stack overflowed: found by this check, repaired); the hand-sized '
             'buffers (program-name copy, pointer array) are proved large enough, the pinned program-name copy is '
             'proved one byte short and was repaired. What is below the model (std::string, Boost, iostreams, '
             'allocator) is observed by the ASan+UBSan build of the real code on fuzzed argument vectors, which is a '
